@@ -2,11 +2,13 @@ package scen
 
 import (
 	"bufio"
+	"bytes"
 	"context"
 	"encoding/json"
 	"fmt"
 	"io"
 	"strings"
+	"sync"
 	"time"
 
 	"github.com/cnotch/ipchub/config"
@@ -16,6 +18,7 @@ import (
 	"github.com/cnotch/ipchub/service"
 	"github.com/cnotch/ipchub/stats"
 	"github.com/cnotch/xlog"
+	"github.com/gorilla/websocket"
 
 	"verif/harness/oracle"
 	"verif/harness/sim"
@@ -110,6 +113,158 @@ type rtspClient struct {
 	frames  []*oracle.WireMsg // interleaved frames received so far
 	resps   []*oracle.WireMsg
 	rdErr   error
+
+	// WebSocket transports: ws = the ws-rtsp connection or the WSP control channel,
+	// data = the WSP data channel (frames are collected by a reader task).
+	proto   string // "" (tcp), "ws", "wsp"
+	ws      *websocket.Conn
+	data    *websocket.Conn
+	channel string
+	wspSeq  int
+	fmu     sync.Mutex
+	dataEnd chan struct{}
+}
+
+// wsRTSPConnect opens a ws-rtsp session (sub-protocol "rtsp") on the stream path.
+func (sw *svcWorld) wsRTSPConnect(name, streamPath string) (*rtspClient, error) {
+	ws, _, err := sw.wsDial(name, "/streams"+streamPath, "rtsp", nil)
+	if err != nil {
+		return nil, err
+	}
+	return &rtspClient{w: sw.w, name: name, proto: "ws", ws: ws}, nil
+}
+
+// wspConnect opens a WSP control channel (INIT) and its data channel (JOIN).
+func (sw *svcWorld) wspConnect(name, streamPath string) (*rtspClient, error) {
+	ctl, _, err := sw.wsDial(name+".ctl", "/streams"+streamPath, "control", nil)
+	if err != nil {
+		return nil, err
+	}
+	cl := &rtspClient{w: sw.w, name: name, proto: "wsp", ws: ctl, dataEnd: make(chan struct{})}
+	ctl.WriteMessage(websocket.TextMessage, []byte("WSP/1.1 INIT\r\nproto: rtsp\r\nseq: 1\r\n\r\n"))
+	_, b, err := ctl.ReadMessage()
+	if err != nil || !bytes.HasPrefix(b, []byte("WSP/1.1 200")) {
+		return nil, fmt.Errorf("WSP INIT: %v %q", err, b)
+	}
+	for _, l := range strings.Split(string(b), "\r\n") {
+		if strings.HasPrefix(l, "channel: ") {
+			cl.channel = strings.TrimPrefix(l, "channel: ")
+		}
+	}
+	data, _, err := sw.wsDial(name+".data", "/streams"+streamPath, "data", nil)
+	if err != nil {
+		return nil, err
+	}
+	data.WriteMessage(websocket.TextMessage, []byte(fmt.Sprintf("WSP/1.1 JOIN\r\nchannel: %s\r\nseq: 2\r\n\r\n", cl.channel)))
+	if _, b, err := data.ReadMessage(); err != nil || !bytes.HasPrefix(b, []byte("WSP/1.1 200")) {
+		return nil, fmt.Errorf("WSP JOIN: %v %q", err, b)
+	}
+	cl.wspSeq = 2
+	cl.data = data
+	sw.w.Go(name+".datareader", func() {
+		defer close(cl.dataEnd)
+		for {
+			_, b, err := data.ReadMessage()
+			if err != nil {
+				return
+			}
+			m, err := wsOneMessage(b)
+			cl.fmu.Lock()
+			if err != nil || !m.Frame {
+				if cl.rdErr == nil {
+					cl.rdErr = fmt.Errorf("WSP data-channel message (%d bytes) is not one interleaved frame: %v", len(b), err)
+				}
+			} else {
+				cl.frames = append(cl.frames, m)
+			}
+			cl.fmu.Unlock()
+		}
+	})
+	return cl, nil
+}
+
+// nframes is the number of interleaved frames received so far.
+func (cl *rtspClient) nframes() int {
+	cl.fmu.Lock()
+	defer cl.fmu.Unlock()
+	return len(cl.frames)
+}
+
+// send writes one or more formatted requests (tcp: raw bytes; ws-rtsp: one message per
+// request; WSP: one WRAP message per request).
+func (cl *rtspClient) send(reqs ...[]byte) error {
+	switch cl.proto {
+	case "":
+		var wire []byte
+		for _, r := range reqs {
+			wire = append(wire, r...)
+		}
+		_, err := cl.c.Write(wire)
+		return err
+	case "ws":
+		for _, r := range reqs {
+			if err := cl.ws.WriteMessage(websocket.BinaryMessage, r); err != nil {
+				return err
+			}
+		}
+	case "wsp":
+		for _, r := range reqs {
+			cl.wspSeq++
+			msg := fmt.Sprintf("WSP/1.1 WRAP\r\nchannel: %s\r\ncontentLength: %d\r\nseq: %d\r\n\r\n%s", cl.channel, len(r), cl.wspSeq, r)
+			if err := cl.ws.WriteMessage(websocket.TextMessage, []byte(msg)); err != nil {
+				return err
+			}
+		}
+	}
+	return nil
+}
+
+// close disconnects the client side.
+func (cl *rtspClient) close() {
+	if cl.proto == "" {
+		cl.c.Close()
+		return
+	}
+	cl.ws.Close()
+	if cl.data != nil {
+		cl.data.Close()
+		<-cl.dataEnd
+	}
+}
+
+func (cl *rtspClient) setReadDeadline(t time.Time) {
+	if cl.proto == "" {
+		cl.c.SetReadDeadline(t)
+	} else {
+		cl.ws.SetReadDeadline(t)
+	}
+}
+
+// readOne reads the next response or frame from the control connection.
+func (cl *rtspClient) readOne() (*oracle.WireMsg, error) {
+	if cl.proto == "" {
+		return oracle.ReadWire(cl.br)
+	}
+	for {
+		_, b, err := cl.ws.ReadMessage()
+		if err != nil {
+			if websocket.IsCloseError(err, websocket.CloseNormalClosure, websocket.CloseGoingAway, websocket.CloseAbnormalClosure, websocket.CloseNoStatusReceived) || err == io.ErrUnexpectedEOF {
+				return nil, io.EOF
+			}
+			return nil, err
+		}
+		if cl.proto == "wsp" {
+			i := bytes.Index(b, []byte("\r\n\r\n"))
+			if i < 0 || !bytes.HasPrefix(b, []byte("WSP/1.1 ")) {
+				return nil, fmt.Errorf("WSP control message is not a WSP response: %q", b[:minInt(80, len(b))])
+			}
+			b = b[i+4:]
+			if len(b) == 0 {
+				continue
+			}
+		}
+		return wsOneMessage(b)
+	}
 }
 
 // rtspConnect opens a connection to the RTSP service.
@@ -145,16 +300,18 @@ func (cl *rtspClient) request(method, url string, hdr map[string]string, body st
 // readUntilResponse reads frames and responses until the response carrying cseq arrives or the
 // simulated timeout passes (a missing response is what the caller reports).
 func (cl *rtspClient) readUntilResponse(cseq int, timeout time.Duration) (*oracle.WireMsg, error) {
-	cl.c.SetReadDeadline(time.Now().Add(timeout))
-	defer cl.c.SetReadDeadline(time.Time{})
+	cl.setReadDeadline(time.Now().Add(timeout))
+	defer cl.setReadDeadline(time.Time{})
 	for {
-		m, err := oracle.ReadWire(cl.br)
+		m, err := cl.readOne()
 		if err != nil {
 			cl.rdErr = err
 			return nil, err
 		}
 		if m.Frame {
+			cl.fmu.Lock()
 			cl.frames = append(cl.frames, m)
+			cl.fmu.Unlock()
 			continue
 		}
 		cl.resps = append(cl.resps, m)
@@ -170,7 +327,7 @@ func (cl *rtspClient) readUntilResponse(cseq int, timeout time.Duration) (*oracl
 // do sends one request and waits for its response.
 func (cl *rtspClient) do(method, url string, hdr map[string]string, body string) (*oracle.WireMsg, error) {
 	cseq, raw := cl.request(method, url, hdr, body)
-	if _, err := cl.c.Write(raw); err != nil {
+	if err := cl.send(raw); err != nil {
 		return nil, err
 	}
 	return cl.readUntilResponse(cseq, 10*time.Second)
@@ -178,18 +335,22 @@ func (cl *rtspClient) do(method, url string, hdr map[string]string, body string)
 
 // drain reads whatever arrives until EOF / error / timeout, recording frames and responses.
 func (cl *rtspClient) drain(timeout time.Duration) error {
-	cl.c.SetReadDeadline(time.Now().Add(timeout))
-	defer cl.c.SetReadDeadline(time.Time{})
+	cl.setReadDeadline(time.Now().Add(timeout))
+	if cl.proto == "" {
+		defer cl.setReadDeadline(time.Time{})
+	}
 	for {
-		m, err := oracle.ReadWire(cl.br)
+		m, err := cl.readOne()
 		if err != nil {
-			if err != io.EOF {
+			if err != io.EOF && !(cl.proto != "" && isTimeout(err)) {
 				cl.rdErr = err
 			}
 			return err
 		}
 		if m.Frame {
+			cl.fmu.Lock()
 			cl.frames = append(cl.frames, m)
+			cl.fmu.Unlock()
 		} else {
 			cl.resps = append(cl.resps, m)
 		}
